@@ -1736,7 +1736,12 @@ impl<K: Hash + Eq, V, RH: BuildHasher, REH: BuildHasher, FH: BuildHasher, FEH: B
             };
         } else {
             match self.frequent.remove_lru_in() {
-                None => None,
+                // the frequent list is empty: the room has to come from the recent list,
+                // otherwise a full cache would grow past its size
+                None => match self.recent.remove_lru_in() {
+                    None => None,
+                    Some(ent) => Some(self.recent_evict.put_nonnull(ent)),
+                },
                 Some(ent) => Some(self.frequent_evict.put_nonnull(ent)),
             };
         }
